@@ -300,23 +300,24 @@ impl DBInner {
 
         macro_rules! check_meta {
             ($func:ident) => {{
-                let meta1 = Page::from_buf(&data, 0, self.pagesize).$func();
+                let page1 = Page::from_buf(&data, 0, self.pagesize);
+                // A header page whose type byte is damaged is as invalid as one with a bad checksum.
+                let valid1 = page1.page_type == Page::TYPE_META && page1.$func().valid();
                 // Double check that we have the right pagesize before we read the second page.
-                if meta1.valid() && meta1.pagesize != self.pagesize {
+                if valid1 {
+                    let meta1 = page1.$func();
                     assert_eq!(
                         meta1.pagesize, self.pagesize,
                         "Invalid pagesize from meta1 {}. Expected {}.",
                         meta1.pagesize, self.pagesize
                     );
                 }
-                let meta2 = Page::from_buf(&data, 1, self.pagesize).$func();
-                match (meta1.valid(), meta2.valid()) {
+                let page2 = Page::from_buf(&data, 1, self.pagesize);
+                let valid2 = page2.page_type == Page::TYPE_META && page2.$func().valid();
+                match (valid1, valid2) {
                     (true, true) => {
-                        assert_eq!(
-                            meta1.pagesize, self.pagesize,
-                            "Invalid pagesize from meta1 {}. Expected {}.",
-                            meta1.pagesize, self.pagesize
-                        );
+                        let meta1 = page1.$func();
+                        let meta2 = page2.$func();
                         assert_eq!(
                             meta2.pagesize, self.pagesize,
                             "Invalid pagesize from meta2 {}. Expected {}.",
@@ -328,15 +329,9 @@ impl DBInner {
                             Some(meta2)
                         }
                     }
-                    (true, false) => {
-                        assert_eq!(
-                            meta1.pagesize, self.pagesize,
-                            "Invalid pagesize from meta1 {}. Expected {}.",
-                            meta1.pagesize, self.pagesize
-                        );
-                        Some(meta1)
-                    }
+                    (true, false) => Some(page1.$func()),
                     (false, true) => {
+                        let meta2 = page2.$func();
                         assert_eq!(
                             meta2.pagesize, self.pagesize,
                             "Invalid pagesize from meta2 {}. Expected {}.",
